@@ -346,6 +346,7 @@ class Builder:
         recs = a.secs[si]
         plan, out = [], []
         pos, k = 0, 0
+        single_at, single_done = None, False
         deleted_tags, yielded = [], []
         guard = 0
         while True:
@@ -362,6 +363,8 @@ class Builder:
             yielded.append(id(rec))
             is_opt = rec.t == G.T_OPT
             nchoices = 1 if (mode != "mixed" or is_opt) else rng.choice([1, 1, 1, 2, 2, 3])
+            if mode == "single" and single_at is None:
+                single_at = rng.randrange(max(1, len([r for r in recs if r.t != G.T_OPT])))
             for ci in range(nchoices):
                 choice = "read"
                 if mode == "delete":
@@ -373,6 +376,11 @@ class Builder:
                     choice = rng.choice(["read", "read", "T", "A", "M", "M", "X", "V", "Merr"])
                 elif mode == "mixed" and is_opt:
                     choice = rng.choice(["read", "read", "X"])
+                elif mode == "uncompress" and not is_opt and k == 0:
+                    choice = "V"
+                elif mode == "single" and not is_opt and k == single_at and not single_done:
+                    choice = rng.choice(["M", "M", "M", "T", "X", "A"])
+                    single_done = True
                 if choice == "T":
                     t = rng.choice([0, 1, 2 ** 32 - 1, rng.getrandbits(32)])
                     rec.ttl = t
